@@ -5,17 +5,31 @@
 //	eenc       Encode fails at the k-th sample (mid-run)
 //	eflush     Flush fails (the periodic flush when gate = 1: flush-interval 20 us, in any case the final one, after the
 //	           aggregator was told to stop: at the very end of the run)
+//	eflusht<j> ONLY the j-th Flush call fails (a transient write failure at a flush-interval tick, mid-run: flush-interval 20 us;
+//	           from the k-th Shoot on the pool's instances wait until that failure has happened, so it is certainly mid-run); the final
+//	           flush and the close of the sink succeed: the failing tick is the only thing that went wrong
 //	eclose     the data sink's Close fails (at the very end)
 //	eencclose  Encode fails at the k-th sample AND the sink's Close fails afterwards (two errors to report)
 //	eok        nothing fails
 //
-// The encoder / the sink log the ground truth (<p>.!aggr) themselves at the moment they fail.
+// gate 1 = flush-interval 20 us (always for eflusht); ctxret 1 (with a flush interval) = the encoder tells the
+// aggregator of its own flushes (the onFlush callback, as the jsonlines encoder does when its buffer runs full), so
+// that a tick right after such a flush does not flush again.
+//
+// The encoder / the sink log the ground truth (<p>.!aggr) themselves at the moment they fail, and record every
+// operation the aggregator performs on them (observable V, run-length coded: o/O sink opened / failed to open,
+// e/E sample encoded / failed, f/F flushed / failed, c/C sink closed / failed). Observable E = what the real
+// aggregator's Run returned (nil, or the failures it carries joined with +: open, enc, flush, final, close, dropped).
 package main
 
 import (
 	"context"
 	"errors"
+	"fmt"
 	"io"
+	"strconv"
+	"strings"
+	"sync"
 	"time"
 
 	"github.com/yandex/pandora/core"
@@ -29,13 +43,54 @@ var (
 	errFlush     = errors.New("verif: flush failed")
 )
 
+// opTrace is the sequence of operations the aggregator performed on its encoder / sink, run-length coded.
+type opTrace struct {
+	mu   sync.Mutex
+	ops  []byte
+	cnt  []int
+	done bool
+}
+
+func (t *opTrace) add(op byte) {
+	t.mu.Lock()
+	defer t.mu.Unlock()
+	if n := len(t.ops); n > 0 && t.ops[n-1] == op {
+		t.cnt[n-1]++
+		return
+	}
+	t.ops = append(t.ops, op)
+	t.cnt = append(t.cnt, 1)
+}
+
+func (t *opTrace) String() string {
+	t.mu.Lock()
+	defer t.mu.Unlock()
+	if len(t.ops) == 0 {
+		return "none"
+	}
+	var parts []string
+	for i, op := range t.ops {
+		parts = append(parts, fmt.Sprintf("%c%d", op, t.cnt[i]))
+	}
+	return strings.Join(parts, ".")
+}
+
+func okFail(ok bool, a, b byte) byte {
+	if ok {
+		return a
+	}
+	return b
+}
+
 type planSink struct {
 	pm        *poolMocks
+	tr        *opTrace
 	openFail  bool
 	closeFail bool
 }
 
 func (s *planSink) OpenSink() (io.WriteCloser, error) {
+	s.tr.add(okFail(!s.openFail, 'o', 'O'))
 	if s.openFail {
 		s.pm.fault("aggr")
 		return nil, errSinkOpen
@@ -46,6 +101,7 @@ func (s *planSink) OpenSink() (io.WriteCloser, error) {
 func (s *planSink) Write(b []byte) (int, error) { return len(b), nil }
 
 func (s *planSink) Close() error {
+	s.tr.add(okFail(!s.closeFail, 'c', 'C'))
 	if s.closeFail {
 		s.pm.fault("aggr")
 		return errSinkClose
@@ -54,27 +110,69 @@ func (s *planSink) Close() error {
 }
 
 type planEncoder struct {
-	pm        *poolMocks
-	n         int
-	encFailAt int // 0: never
-	flushFail bool
+	pm          *poolMocks
+	tr          *opTrace
+	n           int
+	flushes     int
+	encFailAt   int // 0: never
+	flushFail   bool
+	flushFailAt int           // only this Flush call fails (0: none)
+	failed      chan struct{} // closed when that Flush call has failed
+	onFlush     func()        // set when the encoder reports its own flushes: it flushes at every second sample
 }
 
 func (e *planEncoder) Encode(core.Sample) error {
 	e.n++
-	if e.encFailAt > 0 && e.n == e.encFailAt {
+	bad := e.encFailAt > 0 && e.n == e.encFailAt
+	e.tr.add(okFail(!bad, 'e', 'E'))
+	if bad {
 		e.pm.fault("aggr")
 		return errEncode
+	}
+	if e.onFlush != nil && e.n%2 == 0 {
+		e.onFlush()
 	}
 	return nil
 }
 
 func (e *planEncoder) Flush() error {
-	if e.flushFail {
+	e.flushes++
+	bad := e.flushFail || (e.flushFailAt > 0 && e.flushes == e.flushFailAt)
+	e.tr.add(okFail(!bad, 'f', 'F'))
+	if bad {
 		e.pm.fault("aggr")
+		if e.flushFailAt > 0 {
+			close(e.failed)
+		}
 		return errFlush
 	}
 	return nil
+}
+
+// classifyAggr names the failures the real aggregator's error carries.
+func classifyAggr(err error) string {
+	if err == nil {
+		return "nil"
+	}
+	msg := err.Error()
+	var parts []string
+	add := func(cond bool, name string) {
+		if cond {
+			parts = append(parts, name)
+		}
+	}
+	add(strings.Contains(msg, errSinkOpen.Error()), "open")
+	add(strings.Contains(msg, errEncode.Error()), "enc")
+	nFlush := strings.Count(msg, errFlush.Error())
+	nFinal := strings.Count(msg, "final flush failed: "+errFlush.Error())
+	add(nFlush > nFinal, "flush")
+	add(nFinal > 0, "final")
+	add(strings.Contains(msg, errSinkClose.Error()), "close")
+	add(strings.Contains(msg, "dropped"), "dropped")
+	if len(parts) == 0 {
+		return "other"
+	}
+	return strings.Join(parts, "+")
 }
 
 // reportingAggregator counts the Run call of the real aggregator like the mocks' (what is still executing when
@@ -86,13 +184,27 @@ type reportingAggregator struct {
 
 func (r reportingAggregator) Run(ctx context.Context, deps core.AggregatorDeps) error {
 	defer r.pm.rs.enter(true)()
-	return r.Aggregator.Run(ctx, deps)
+	err := r.Aggregator.Run(ctx, deps)
+	r.pm.aggrRes.Store(classifyAggr(err))
+	return err
 }
 
 func realAggregator(pm *poolMocks, pl poolPlan) core.Aggregator {
-	sink := &planSink{pm: pm}
-	enc := &planEncoder{pm: pm}
-	switch pl.fault {
+	tr := &opTrace{}
+	sink := &planSink{pm: pm, tr: tr}
+	enc := &planEncoder{pm: pm, tr: tr}
+	fault := pl.fault
+	if strings.HasPrefix(fault, "eflusht") {
+		enc.flushFailAt, _ = strconv.Atoi(fault[7:])
+		if enc.flushFailAt < 1 {
+			enc.flushFailAt = 1
+		}
+		enc.failed = make(chan struct{})
+		pm.shootGate, pm.shootGateAt = enc.failed, pl.k
+		pl.gate = true
+		fault = "eok"
+	}
+	switch fault {
 	case "eopen":
 		sink.openFail = true
 	case "eenc":
@@ -112,6 +224,12 @@ func realAggregator(pm *poolMocks, pl poolPlan) core.Aggregator {
 	if pl.gate {
 		conf.FlushInterval = 20 * time.Microsecond
 	}
-	inner := aggregator.NewEncoderAggregator(func(io.Writer, func()) aggregator.SampleEncoder { return enc }, conf)
+	pm.aggrOps = tr
+	inner := aggregator.NewEncoderAggregator(func(_ io.Writer, onFlush func()) aggregator.SampleEncoder {
+		if pl.gate && pl.ctxret {
+			enc.onFlush = onFlush
+		}
+		return enc
+	}, conf)
 	return reportingAggregator{Aggregator: inner, pm: pm}
 }
